@@ -176,6 +176,9 @@ def _arc_points(p, q, k, bulge):
 def build_tissue(spec, frame=0):
     vv, cellv = _voronoi_cells(spec)
     keep = spec.get("keep")
+    kbf = spec.get("keep_by_frame") or {}
+    if str(frame) in kbf:
+        keep = kbf[str(frame)]      # a later frame that lost (or gained) cells
     if keep is None:
         keep = list(range(len(cellv)))
     keep = sorted(set(keep))
@@ -251,7 +254,7 @@ def build_tissue(spec, frame=0):
         raise ValueError("coincident points after rounding")
 
     # id maps
-    ir = _rng(spec, "ids")
+    ir = _rng(spec, "ids" if not spec.get("ids_per_frame") else f"ids:{frame}")
     idmode = spec.get("ids", "contig0")
 
     def idmap(keys, mode, r):
